@@ -128,6 +128,8 @@ ImplAdmissibleElem == IsE => Clause(Broken(d, v, st), ImplElem(d, v, st)) = ""
 ImplAdmissibleComp == IsC => Clause(CompBroken(d, v, st), ImplComp(d, v, st)) = ""
 (* one broken constraint: the algorithm reports exactly its code *)
 ImplExactOnSingle == IsE /\ Cardinality(Broken(d, v, st)) = 1 => SeqSet(ImplElem(d, v, st).codes) = Implied(Broken(d, v, st))
+(* the algorithm reports EVERY implied code, except what a composite value or a control character masks (ElemValid!Complete) *)
+ImplComplete == IsE => Complete(Broken(d, v, st), SeqSet(ImplElem(d, v, st).codes))
 (* laws of the definition itself *)
 DefLaws == IsE =>
    LET Bk == Broken(d, v, st) IN
